@@ -84,7 +84,7 @@ func selfTest(ctx *core.Ctx) error {
 	ctx.Logf("self-test (i): %d intact records accepted, %d corrupted ones rejected", n, len(recs)-n)
 
 	for _, nc := range []struct{ cfg, inv string }{
-		{"MC_Codecs_bad_rl.cfg", "RLOK"}, {"MC_Codecs_bad_paeth.cfg", "PROK"}, {"MC_Codecs_bad_lzw.cfg", "LZWOK"},
+		{"MC_Codecs_bad_rl.cfg", "RLOK"}, {"MC_Codecs_bad_paeth.cfg", "PROK"}, {"MC_Codecs_bad_lzw.cfg", "LZWOK"}, {"MC_Codecs_bad_lzwclose.cfg", "LZWOK"},
 	} {
 		r, err := ctx.TLC(core.TLCOpts{Dir: "filter", Module: "MC_Codecs", Cfg: nc.cfg, Workers: 4, XssMB: 1024, Mode: "negative-control"})
 		if err != nil {
@@ -94,7 +94,7 @@ func selfTest(ctx *core.Ctx) error {
 			return core.Infra("self-test: %s should violate %s, got %q", nc.cfg, nc.inv, r.Invariant)
 		}
 	}
-	ctx.Logf("self-test (ii): repeat count 129, reversed Paeth tie-breaking and a shifted LZW code length switch violate the design model")
+	ctx.Logf("self-test (ii): repeat count 129, reversed Paeth tie-breaking, a shifted LZW code length switch and a Close without incHi (EOD at the old code length) violate the design model")
 
 	// (iii) a wrong table line: the expected data differs from the encoding's meaning
 	wrong := &job{Dir: "dec", Fmt: "rl", Variant: "selftest", data: []byte{1, 2, 3}, enc: []byte{2, 1, 2, 4, 128}}
